@@ -247,6 +247,7 @@ func checkC15(w *World, r *Report) {
 	checkLoaderLoopsDoNotJudgeErrors(w, r)
 	checkLoadersAskedInOrder(w, r, "R15.16")
 	checkLoaderSiblingsShapePathsAlike(w, r)
+	checkLoadersSeeAbsence(w, r)
 	// loaders are only appended
 	n2 := 0
 	for _, fn := range w.pkgFuncs() {
@@ -2234,4 +2235,52 @@ func checkLoaderSiblingsShapePathsAlike(w *World, r *Report) {
 		}
 	}
 	r.floor("Exists / GetModifiedTime siblings of a file-reading Load", n, 1)
+}
+
+// checkLoadersSeeAbsence — R15.18: "this loader does not have it" is decided by presence, not by
+// content.  In the Load and Exists methods of the package's loaders every lookup in a map whose
+// elements are not interfaces is the two-result form: a plain m[name] yields the zero value for
+// a missing name, so a template registered with empty source is taken for a missing one and a
+// later loader answers in its place.
+func checkLoadersSeeAbsence(w *World, r *Report) {
+	n := 0
+	for _, fn := range w.pkgFuncs() {
+		if fn.Signature.Recv() == nil || !isTwigFn(fn) || (fn.Name() != "Load" && fn.Name() != "Exists") {
+			continue
+		}
+		if _, isEngine := deref(fn.Signature.Recv().Type()).(*types.Named); !isEngine || isNamed(fn.Signature.Recv().Type(), twigPath, "Engine") {
+			continue
+		}
+		// loaders only: Load(string) (string, error) / Exists(string) bool
+		if fn.Signature.Params().Len() != 1 {
+			continue
+		}
+		scanLookups := func(g *ssa.Function) {
+			instrsOf(g, func(in ssa.Instruction) {
+				lk, ok := in.(*ssa.Lookup)
+				if !ok {
+					return
+				}
+				mt, isMap := lk.X.Type().Underlying().(*types.Map)
+				if !isMap {
+					return
+				}
+				if _, isIface := mt.Elem().Underlying().(*types.Interface); isIface {
+					return
+				}
+				n++
+				construct := "map lookup in a loader sees absence"
+				if lk.CommaOk {
+					r.ok("R15.18", ssaName(fn), construct, w.posOf(in.Pos()), "two-result lookup", false)
+				} else {
+					r.bad("R15.18", ssaName(fn), construct, w.posOf(in.Pos()), "a plain lookup yields the zero value for a missing name: a template with empty source (or a zero entry) and a missing template are the same to this loader, so Load reports 'not found' for a name it has and the next loader (or the not-found error) answers instead")
+				}
+			})
+		}
+		scanLookups(fn)
+		for _, a := range fn.AnonFuncs {
+			scanLookups(a)
+		}
+	}
+	r.floor("typed map lookups in loaders", n, 2)
 }
